@@ -377,6 +377,11 @@ func runC27(c *Ctx) {
 					if ranged == nil {
 						continue
 					}
+					// decided only where the ranged slice was sized from another slice (make(…, len(Z))): then the
+					// indexed slice must be Z or be sized from Z too. Slices grown by append in lockstep are not judged.
+					if lenOf(root(ranged)) == nil && root(ranged) != root(ia.X) {
+						continue
+					}
 					n++
 					c.Check(sameLen(ia.X, ranged), "C27.ALIGN", fmt.Sprintf("%s|index-of-other-slice#%d", sub.Name(), n), ia.Pos(), "indexed slice and ranged slice have the same length by construction", sub.Name()+" indexes one slice with the position of a loop over another whose length is not tied to it: when the two lists differ (all reconcile entries vs the candidates among them) the staleness of one file is recorded against a different file — a file the hub lost is vouched for as present, and another one's receipt is deleted")
 				}
